@@ -83,7 +83,11 @@ Tails == {<<>>, <<Num("8571")>>, <<NN("us", "840"), NN("rsadsi", "113549")>>, <<
 OidTy == [k |-> "OID"]
 NoPrefix == [f |-> "none"]
 OidTerms == {[f |-> "oid", prefix |-> NoPrefix, arcs |-> r \o s \o t] : <<r, s, t>> \in {x \in Roots \X (UNION {Seconds(r) : r \in Roots}) \X Tails : x[2] \in Seconds(x[1])}}
-OidCases == UNION {Few("oid", OidTy, t) : t \in OidTerms}
+\* the letter arcs below itu-t recommendation, by name alone and with a number
+LetterTerms == {[f |-> "oid", prefix |-> NoPrefix, arcs |-> r \o s \o <<l>> \o t] :
+                  r \in {<<Nm("itu-t")>>, <<Num("0")>>, <<Nm("ccitt")>>}, s \in {<<Nm("recommendation")>>, <<Num("0")>>, <<NN("recommendation", "0")>>},
+                  l \in {Nm("a"), Nm("q"), Nm("x"), Nm("z"), NN("q", "17")}, t \in {<<>>, <<Num("755"), Num("2")>>}}
+OidCases == UNION {Few("oid", OidTy, t) : t \in OidTerms \cup LetterTerms}
 PrefixTerm == [f |-> "oid", prefix |-> NoPrefix, arcs |-> <<Num("1"), Num("2"), Num("840")>>]
 OidRefCases == UNION {Case("oid", OidTy, [f |-> "oid", prefix |-> NoPrefix, arcs |-> a]) : a \in {<<Nm("iso"), Nm("standard"), Num("8571")>>, <<Num("2"), Num("5"), Num("4")>>}}
                  \cup UNION {Case("oid", OidTy, [f |-> "oid", prefix |-> PrefixTerm, arcs |-> a]) : a \in {<<Num("1"), Num("5")>>, <<NN("standard", "9")>>, <<Num("113549")>>}}
@@ -122,7 +126,7 @@ Spec == Init /\ [][Next]_fam
 
 \* Denote is defined on every case, and name-only arcs stand where they may
 Defined == \A c \in Families[fam] : Denote(c.term, c.ty).k # "?"
-OidWellFormed == \A t \in OidTerms : NameFormOK(t.arcs)
+OidWellFormed == \A t \in OidTerms \cup LetterTerms : NameFormOK(t.arcs)
 \* the tables: 4 bits per hex digit, most significant first; an octet string has whole octets
 HexTable == /\ \A i \in 1..16 : LET b == HexBits(<<HexDigits[i]>>) IN Len(b) = 4 /\ 8 * b[1] + 4 * b[2] + 2 * b[3] + b[4] = i - 1
             /\ \A d \in LongHex : Len(HexBits(d)) = 4 * Len(d)
